@@ -3,7 +3,7 @@
 set -e
 cd "$(dirname "$0")/.."
 python3 tools/cxx2lean.py >/dev/null || true
-(cd lean && lake build DspVerif dspdriver)
+(cd lean && lake build DspVerif && lake build $(sed -n 's/^name = "\(dspdriver_c[0-9]*\)"/\1/p' lakefile.toml))
 python3 - <<'PY'
 import sys, os
 sys.path.insert(0, os.path.join(os.getcwd(), "tools"))
